@@ -90,6 +90,20 @@ def make_project(seed, nfiles):
         decls[p].append(block)
         type_names.append(name)
         meta["types"].append(name)
+    # an aggregate whose name sorts *before* the types it depends on (dependency-first emission then has to order
+    # several not-yet-visited dependencies: sensitive to the iteration order of the dependency set)
+    if len(type_names) >= 2:
+        deps = type_names[:]
+        rng.shuffle(deps)
+        deps = deps[:2 + rng.below(min(3, len(deps) - 1))]
+        name = "Aggregate%d" % rng.below(10)
+        fields = "".join("    pub part%d: %s,\n" % (k, d if k % 2 == 0 else "Vec<%s>" % d) for k, d in enumerate(deps))
+        decls[rng.pick(paths)].append("#[derive(Debug, Clone, Serialize, Deserialize)]\npub struct %s {\n%s}\n" % (name, fields))
+        type_names.append(name)
+        meta["types"].append(name)
+        agg = name
+    else:
+        agg = None
     ncmds = nfiles + 1 + rng.below(2 * nfiles)
     for c in range(ncmds):
         name = "%s_%s%d" % (rng.pick(["get", "set", "load", "save", "list"]), rng.pick(["user", "item", "config", "report"]), c)
@@ -117,6 +131,15 @@ def make_project(seed, nfiles):
         block = "%s\npub %sfn %s(%s) -> Result<%s, String> {\n%s}\n" % (attr, asy, name, ", ".join(params), ret, body)
         decls[p].append(block)
         meta["commands"].append(name)
+    if agg:
+        decls[paths[0]].append("#[tauri::command]\npub fn load_aggregate(id: i32) -> Result<%s, String> {\n    todo!()\n}\n" % agg)
+        meta["commands"].append("load_aggregate")
+    # helper functions (no command attribute) that emit events: events are discovered in every function of every file
+    for h in range(1 + rng.below(2)):
+        ev = "helper-%s-%d" % (rng.pick(["ping", "tick", "done"]), h)
+        decls[rng.pick(paths)].append("pub fn notify_helper_%d(app: &AppHandle) {\n    app.emit(\"%s\", %s).ok();\n}\n" % (
+            h, ev, rng.pick(['"x"', "1u32", "true"])))
+        meta["events"].append(ev)
     for p in paths:
         files[p] = decls[p]
     return {"files": files, "meta": meta, "header": HEADER}
@@ -184,4 +207,20 @@ def move_items(project, seed):
         p2["files"][path] = keep
     last = paths[-1]
     p2["files"][paths[0]].extend(p2["files"].pop(last))
+    return p2
+
+
+def split_helpers(project, seed):
+    """every item that is not a command goes into a file of its own (files without any command appear)"""
+    p2 = copy.deepcopy(project)
+    k = 0
+    for path in sorted(p2["files"]):
+        keep = []
+        for b in p2["files"][path]:
+            if "#[tauri::command]" in b or "#[command]" in b:
+                keep.append(b)
+            else:
+                k += 1
+                p2["files"]["split/part%d.rs" % k] = [b]
+        p2["files"][path] = keep
     return p2
